@@ -145,3 +145,47 @@ pub fn leak_drain_zst(is_row: bool, c: usize, r: usize) {
     assert!(zlive() == (c * r) as isize - taken as isize - n as isize, "ORACLE: zero-sized elements dropped twice (or not at all) after a leaked drain");
     end_reached!();
 }
+
+/// pop_row / pop_col (the last line) with the drain leaked after symbolic partial consumption, on
+/// shapes with 9 or 10 lines (the "wide array" regime of any line-count threshold).
+pub fn leak_pop_u8(is_row: bool, c: usize, r: usize) {
+    let cells: [u8; 24] = [0, 1, 2, 3, 4, 5, 6, 7, 8, 9, 10, 11, 12, 13, 14, 15, 16, 17, 18, 19, 20, 21, 22, 23];
+    let mut t = owned_u8(c, r, &cells, false);
+    let take = nd::upto(2);
+    if is_row {
+        let mut d = t.pop_row().unwrap();
+        if take > 0 { d.next(); }
+        if take > 1 { d.next_back(); }
+        core::mem::forget(d);
+    } else {
+        let mut d = t.pop_col().unwrap();
+        if take > 0 { d.next(); }
+        if take > 1 { d.next_back(); }
+        core::mem::forget(d);
+    }
+    inv(&t);
+    let n = t.data().len();
+    assert!(n <= c * r, "ORACLE: array grew by leaking a drain");
+    if n > 1 {
+        let a = nd::below(n);
+        let b = nd::below(n);
+        if a != b {
+            assert!(t.data()[a] != t.data()[b], "ORACLE: an element is reachable twice after leaking a drain");
+        }
+    }
+    // the array stays usable
+    let w = t.num_cols();
+    let mut row: Vec<u8> = Vec::new();
+    let mut i = 0;
+    while i < w {
+        row.push(200);
+        i += 1;
+    }
+    if w > 0 {
+        t.push_row(row);
+    }
+    inv(&t);
+    t.clear();
+    inv(&t);
+    end_reached!();
+}
